@@ -146,6 +146,13 @@ class VG:
                     m = self.wmask(v.ty.n)
                     rhs = self.scalar(v.ty.c, vars_, 1) if len(m) == 1 else self.vec(Vec(v.ty.c, len(m)), vars_, 1)
                     self.hit('swizzle-write-%d' % len(m)); ss.append(ExprS(Assign(Swizzle(v, m), rhs)))
+            elif k < .56 and [x for x in agg if isinstance(x.ty, Vec) and x.ty.n >= 2]:
+                # an element write THROUGH a swizzle: v.zw[1] = e changes exactly component w of v
+                v = r.choice([x for x in agg if isinstance(x.ty, Vec) and x.ty.n >= 2])
+                m = self.wmask(v.ty.n)
+                while len(m) < 2: m = self.wmask(v.ty.n)
+                ss.append(ExprS(Assign(Index(Swizzle(v, m), Lit(r.randrange(len(m)), INT)), self.scalar(v.ty.c, vars_, 1))))
+                self.hit('elem-write-through-swizzle')
             elif k < .65 and agg:
                 v = r.choice(agg)
                 if isinstance(v.ty, Vec):
